@@ -87,7 +87,7 @@ except BaseException as e:
 
 @unit("evaluator-actions", ["C18"], [S + ":" + a for a in sorted({v[0] for v in ACTIONS.values()})] + [S + ":_guarantee_call", S + ":Evaluator.__call__"],
       replay=_replay_parse, replay_decides=True,
-      assumed=["induction hypothesis: evaluate(sub-tree) returns an Element, a Call or a list of those, possibly nested one level (or raises SyntaxError); value_evaluate returns a VSymbol / VCall / VKeyword / list"])
+      assumed=["induction hypothesis: evaluate(sub-tree) returns an Element, a Call or a FLAT list of those (or raises SyntaxError; flatness is itself an obligation of make_sequence); value_evaluate returns a VSymbol / VCall / VKeyword / list"])
 def u_actions(c):
     """Every evaluation action, for EVERY combination of kinds of its (already evaluated) operands, in both contexts:
     returns an Element, a Call or a list, or raises SyntaxError -- never an assertion / attribute / type / index error.
@@ -109,7 +109,9 @@ def u_actions(c):
             kinds.append(k)
             operands.append(SymObj("tree:" + k, Val.ref(z3.IntVal(c.new_id())), attrs={"_kind": k}))
         else:
-            k = ["element", "wild", "call", "list", "nested-list"][c.choose(5, "kind")]
+            # lists are FLAT: make_sequence flattens both operands (clause sequence-is-flat below) and make_group returns its operand, so by
+            # induction no evaluated sub-tree is a nested list (before fix of make_sequence a `nested-list` kind was part of this split)
+            k = ["element", "wild", "call", "list"][c.choose(4, "kind")]
             kinds.append(k)
             operands.append(SymObj("tree:" + k, Val.ref(z3.IntVal(c.new_id())), attrs={"_kind": k}))
     context = ["root", "incall"][c.choose(2, "context")]
@@ -131,6 +133,10 @@ def u_actions(c):
     if st == "ok":
         ok = (isinstance(r, Obj) and r.cls.name in ("Element", "Call")) or isinstance(r, list)
         c.prove(f"{label}/returns-selector-or-list", ok, note=f"kinds={kinds} string={text} ||")
+        if fname == "make_sequence" and isinstance(r, list):
+            # a parenthesised group inside a sequence is only grouping: `(a, b), c` is the sequence a, b, c.  A nested list would be
+            # dropped silently by the call that receives it (`f((a, b), c)` capturing c only)
+            c.prove(f"{label}/sequence-is-flat", all(not isinstance(x, list) for x in r), note=f"kinds={kinds} string={text} ||")
     else:
         c.prove(f"{label}/no-internal-error:{'+'.join(str(k) for k in kinds)}", isinstance(r, SyntaxError) or exc_name(r) == "SelectorError",
                 note=f"raised {exc_name(r)}: {r!r} context={context} string={text} ||")
